@@ -125,7 +125,32 @@ func TestDriveC09(t *testing.T) {
 		cmd.Env = append(os.Environ(), "VERIF_C09_CHILD=1", "VERIF_C09_FROM="+strconv.Itoa(from))
 		var ob bytes.Buffer
 		cmd.Stdout, cmd.Stderr = &ob, &ob
-		err := cmd.Run()
+		must(cmd.Start())
+		// watchdog: a child that records nothing for a long stretch of REAL time hangs (inside a bubble a goroutine that is
+		// blocked on a lock stops the fake clock, so no timeout of the scenario can fire): it is killed, and the scenario
+		// that was running is recorded like one that crashed
+		exited := make(chan error, 1)
+		go func() { exited <- cmd.Wait() }()
+		var err error
+		hung := false
+		lastSize, lastChange := int64(-1), time.Now()
+	wait:
+		for {
+			select {
+			case err = <-exited:
+				break wait
+			case <-time.After(2 * time.Second):
+				if fi, e := os.Stat(out); e == nil && fi.Size() != lastSize {
+					lastSize, lastChange = fi.Size(), time.Now()
+				}
+				if time.Since(lastChange) > 150*time.Second {
+					hung = true
+					_ = cmd.Process.Kill()
+					err = <-exited
+					break wait
+				}
+			}
+		}
 		done, open := c09Progress(out)
 		if err == nil && open < 0 {
 			break
@@ -137,7 +162,7 @@ func TestDriveC09(t *testing.T) {
 		// the scenario `open` crashed the process: record it and continue after it
 		f, e2 := os.OpenFile(out, os.O_APPEND|os.O_WRONLY, 0644)
 		must(e2)
-		fin := Ev{"ev": "Final", "crashed": true, "regs": c09BeginRegs(out, open), "vt": 0, "t": open + 1, "seq": 999999,
+		fin := Ev{"ev": "Final", "crashed": true, "hung": hung, "regs": c09BeginRegs(out, open), "vt": 0, "t": open + 1, "seq": 999999,
 			"output": tailStr(ob.String(), 1500)}
 		b, _ := json.Marshal(fin)
 		if data, _ := os.ReadFile(out); len(data) > 0 && data[len(data)-1] != '\n' {
